@@ -10,12 +10,19 @@ def outToJson : Except PErr (List Seg) → Json
   | .error (.ypath c) => Json.mkObj [("ypath", Json.num (Lean.JsonNumber.fromNat c))]
   | .error (.crash c) => Json.mkObj [("crash", Json.num (Lean.JsonNumber.fromNat c))]
 
+/-- The segment id with edge white-space removed and ASCII letters lower-cased: an id that is a keyword
+name only up to padding or letter case is its own class of the state cover (the real parser decides at
+`(` whether the id names a keyword, so the cover must reach `(` from such ids too). -/
+def nearKeyword (s : Str) : Str :=
+  (stripWs s).map (fun c => if 'A' ≤ c ∧ c ≤ 'Z' then Char.ofNat (c.toNat + 32) else c)
+
 def segIdClass (s : Str) : String :=
   if s = [] then "e"
   else if s = ['-'] then "-"
   else if (pyInt? s).isSome then "i"
   else if s.contains ':' then ":"
   else if (keywordOf? s).isSome then "k"
+  else if (keywordOf? (nearKeyword s)).isSome then (if stripWs s = s then "K" else "P")
   else if s.contains '*' then "*"
   else if s.head? = some '\'' ∨ s.head? = some '"' then "q"
   else "o"
